@@ -255,6 +255,36 @@ func c12(r *Run) {
 		}
 	}
 
+	// bytes still buffered when the connection is closed stay readable (no-callback connections): teardown recycles a buffer
+	// only when that same buffer is empty, or when callbacks exist (then the handler task is the only reader and it is done)
+	{
+		fn := w.MustFn("(*connection).closeBuffer")
+		cbSet := cmpAtom(func(v ssa.Value) bool {
+			n := namedTypeName(v.Type())
+			return n == "OnConnect" || n == "OnRequest"
+		}, isNilConst, neqRel)
+		n := 0
+		for _, field := range []string{"inputBuffer", "outputBuffer"} {
+			field := field
+			empty := cmpAtom(func(v ssa.Value) bool {
+				i, ok := v.(ssa.Instruction)
+				if !ok {
+					return false
+				}
+				m, ok := callOnField(i, "connection", field)
+				return ok && m == "Len"
+			}, isConstEq(0), eqRel)
+			for _, site := range findIns(fn, func(i ssa.Instruction) bool {
+				m, ok := callOnField(i, "connection", field)
+				return ok && m == "Close"
+			}) {
+				n++
+				r.guarded("C12.R2:recycled-only-when-empty:"+field, "teardown recycles the "+field+" only when that same buffer is empty or the connection has callbacks: on a connection without callbacks the bytes buffered at Close stay readable (and a pending output is not freed under the writer)", fn, site, anyAtom(empty, cbSet), nil, "guarded by "+field+".Len()==0 || onConnect!=nil || onRequest!=nil")
+			}
+		}
+		r.ob("C12.R2:recycled-only-when-empty:sites", "closeBuffer recycles both buffers", fn, nil, n >= 2, fmt.Sprintf("%d Close sites", n), false)
+	}
+
 	// a Flush that is past its activity test still uses the slot and the buffers: the finalizer waits for it before it frees them
 	r.borrow([]string{"C05.R8:stop-flushing-first"}, "C05.R8", "C12.R3", func() { c05(r) })
 
@@ -392,6 +422,9 @@ func c12(r *Run) {
 			fn := w.MustFn(name)
 			r.mustPass("C12.R5:close-goes-through-onClose:"+fn.Name(), "Close/Detach go through onClose (closeBy CAS + runner attempt)", fn, nil, []Start{Entry(fn)}, func(i ssa.Instruction) bool { return isCall(i, oc) }, nil, nil, "onClose() on every path")
 		}
+		// a repeated Close on a long-closed connection must not touch the poller slot again (it may belong to another
+		// connection by now): the detach happens only after the processing lock was won, which a second Close never does
+		r.borrow([]string{"C05.R12:detach-after-lock"}, "C05.R12", "C12.R5", func() { c05(r) })
 	}
 }
 
